@@ -166,7 +166,7 @@ def run(props: List[str], jobs: int = 16, src_root: Optional[str] = None, verbos
     silent = [r for r in results if r["kind"] == "silent"]
     return dict(
         must_fire=len(fire), must_fire_ok=sum(1 for r in fire if r["ok"] and not r.get("skipped")),
-        silent=len(silent), silent_ok=sum(1 for r in silent if r["ok"] and not r.get("skipped")),
+        silent=len(silent), silent_ok=sum(1 for r in silent if r["ok"] and not r.get("skipped") and r.get("rules") in ([], None)),
         skipped=sum(1 for r in results if r.get("skipped")),
         undecided=[f"{r['prop']} {r['id']}" for r in results if r.get("rules") in (["UNDECIDED"], ["ANALYSIS-ERROR"])],
         recorded_false_alarms=[f"{r['prop']} {r['id']}" for r in results if r.get("rules") == ["RECORDED-FALSE-ALARM"]],
